@@ -342,7 +342,9 @@ def evaluate_cfi_directives(
                             state.initial.registers[register]
                         )
                     else:
-                        state.current.registers.pop(register)
+                        # No rule in the initial row either: the register
+                        # goes back to having no rule at all.
+                        state.current.registers.pop(register, None)
                 elif name == ".cfi_val_offset":
                     register, offset = args
                     state.current.registers[register] = RegValOffset(offset)
